@@ -177,6 +177,18 @@ CHECKS["C18"] = dict(
    design="5/C18", technique="Coq invariant proof for the composite restore; state correspondence; in-process and cross-process round-trip tests",
    note="Trusted: Coq kernel; Model/Pickle.v hand-written. Floats and strings not covered. One defect repaired (unchecked children forgotten).")
 
+CHECKS["C16"] = dict(
+   text="Machine-checked proof (Coq) for the one core claripy computes itself: when SatCacheMixin._add finds that And(con, added) builds to the "
+        "constant False, the pair it caches as unsat core is unsatisfiable under every assignment (C16_shortcut_core_unsat, corollary of the "
+        "construction soundness theorem); the shortcut is replayed on the construction model. Cores read back from Z3 (tracking names, "
+        "clone/translate after branch, re-tracking after simplification, CompositeFrontend.unsat_core) are NOT modelled: tracked Solver and "
+        "SolverComposite objects are driven to unsatisfiability by random histories and the core is judged against enumeration (members were "
+        "added, conjunction unsatisfiable, empty iff satisfiable). On the pinned tree cores are wrong after simplifying queries, after branch() "
+        "and for the composite solver: known findings by scenario class.",
+   design="5/C16", technique="Coq corollary for the cached shortcut core; enumeration tests of Z3-derived cores with scenario-class known findings",
+   note="Trusted: Coq kernel; Z3's core is an unsat subset of the tracked assertions. Mostly testing. Two defects repaired (nested list in the "
+        "cached core; empty core when unsatisfiability was known only from a cache).")
+
 REASONS = {}
 DEFAULT_REASON = "not claimed yet: its Coq model and correspondence harness are not built in this snapshot (see DESIGN.md section 10 for the order); no other technique is substituted"
 
